@@ -13,8 +13,8 @@ package main
 import (
 	"encoding/json"
 	"errors"
-	"io"
 	"fmt"
+	"io"
 	"math"
 	"regexp"
 	"sort"
